@@ -11,6 +11,13 @@ Ltac split_orb :=
          | H : (_ || _) = false |- _ => apply orb_false_iff in H; destruct H
          end.
 
+(* what the slice parser needs of the SPS it is given: log2_max_pic_order_cnt_lsb (minus 4 <= 12 in the
+   standard) fits the accumulator *)
+Definition hsps_narrow (s : hsps) : bool := h_log2_poc s <=? 52.
+Lemma hsps_narrow_w (spsmap : N -> option hsps) id s :
+  (forall id s, spsmap id = Some s -> hsps_narrow s = true) -> spsmap id = Some s -> h_log2_poc s <= 52.
+Proof. intros H E. specialize (H _ _ E). unfold hsps_narrow in H. lia. Qed.
+
 Section Hevc.
   Variable raw : list N.
   Hypothesis raw_ok : Forall lt256 raw.
@@ -65,6 +72,114 @@ Section Hevc.
 
   Lemma rel_hparse_pps st spsmap : MRel raw st st (hparse_pps ER spsmap) (hparse_pps BR spsmap).
   Proof. unfold hparse_pps. tie. Qed.
+
+  (* ---------------------------------------------------------------- slice segment header *)
+  Ltac tie_sub ::= first [ apply MRel_rep_until_err_n | apply MRel_rep ].
+  Ltac tie_rd_side ::= first [ tie_width | (split_orb; unfold u64, u8 in *; lia) ].
+
+  Lemma rel_hrps_inter st : MRel raw st st (hparse_rps_inter_entry ER) (hparse_rps_inter_entry BR).
+  Proof. unfold hparse_rps_inter_entry. tie. Qed.
+
+  Ltac tie_sub ::= first [ apply MRel_rep_until_err_n | apply MRel_rep | apply rel_hrps_inter ].
+  Lemma rel_hst_rps idx num sets :
+    MRel raw false false (hparse_st_rps ER idx num sets) (hparse_st_rps BR idx num sets).
+  Proof. unfold hparse_st_rps. tie. Qed.
+
+  Lemma rel_hlt_loop st sp : h_log2_poc sp <= 52 -> forall cnt i nlsps acc npt,
+    MRel raw st st (hlt_loop ER cnt i nlsps sp acc npt) (hlt_loop BR cnt i nlsps sp acc npt).
+  Proof. intros Hn. induction cnt as [|c IH]; intros i nlsps acc npt; cbn [hlt_loop]; tie. Qed.
+
+  Lemma rel_hrplm st is_b l0 l1 npt : MRel raw st st (hparse_rplm ER is_b l0 l1 npt) (hparse_rplm BR is_b l0 l1 npt).
+  Proof. unfold hparse_rplm. tie. Qed.
+
+  Lemma rel_hpwt_values st fl : MRel raw st st (hparse_pwt_values ER fl) (hparse_pwt_values BR fl).
+  Proof. unfold hparse_pwt_values. tie. Qed.
+
+  Lemma rel_hpwt_list st c n : MRel raw st st (hparse_pwt_list ER c n) (hparse_pwt_list BR c n).
+  Proof. unfold hparse_pwt_list. tie. all: apply MRel_mapM; intros; apply rel_hpwt_values. Qed.
+
+  Ltac tie_sub ::= first [ apply rel_hpwt_list ].
+  Lemma rel_hpwt st is_b c l0 l1 : MRel raw st st (hparse_pwt ER is_b c l0 l1) (hparse_pwt BR is_b c l0 l1).
+  Proof. unfold hparse_pwt. tie. Qed.
+
+  Ltac tie_sub ::= first [ apply MRel_rep_until_err_n | apply rel_hst_rps | (apply rel_hlt_loop; assumption)
+                         | apply rel_hrplm | apply rel_hpwt ].
+  Lemma rel_hslice_main nt sp pp : h_log2_poc sp <= 52 ->
+    MRel raw false false (hparse_slice_main ER nt sp pp) (hparse_slice_main BR nt sp pp).
+  Proof. intros Hn. unfold hparse_slice_main. tie. Qed.
+
+  (* byte_alignment(): entered only after alignment_bit_equal_to_one was read as 1, i.e. from an
+     error-free state; while NrBitsReadInCurrentByte < 8 the accumulator holds bits, so the reads succeed *)
+  Lemma br_flag_true b : fst (br_flag b) = true -> berr (snd (br_flag b)) = false.
+  Proof.
+    unfold br_flag, br_read. destruct (berr b) eqn:E; cbn [fst snd]; [discriminate|].
+    destruct (1 <=? lenN (bbits b)); cbn [fst snd]; [intros _; reflexivity|discriminate].
+  Qed.
+
+  Lemma align_good : forall fuel s b,
+    Good raw s b -> braw b = raw -> rdata s = escape raw ->
+    ORel raw false (halign_loop ER er_bib fuel s) (halign_loop BR br_bib fuel b).
+  Proof.
+    induction fuel as [|f IH]; intros s b G Hr Hd; [exact I|]. cbn [halign_loop].
+    unfold er_bib, br_bib. rewrite <- (bib_good raw s b G).
+    destruct (8 - rn s <? 8) eqn:Eb.
+    - destruct (bbits b) as [|x t] eqn:Ebb.
+      + exfalso. destruct G as [_ [_ [_ [Hbits _]]]]. rewrite Ebb in Hbits. unfold rbits in Hbits.
+        apply app_eq_nil in Hbits. destruct Hbits as [H1 _]. apply (f_equal (@length bool)) in H1.
+        rewrite C13Bits.bits_of_length in H1. cbn in H1. lia.
+      + destruct (read1_good raw s b x t G Hr Hd Ebb) as [E [G1 D1]].
+        assert (Hbf : br_flag b = (x, mkB raw t (bpos b + 1) false)).
+        { unfold br_flag, br_read. destruct G as [_ [Hbe _]]. rewrite Hbe, Ebb, lenN_cons.
+          replace (1 <=? 1 + lenN t) with true by lia. change (N.to_nat 1) with 1%nat.
+          cbn [firstn skipn]. rewrite Hr. destruct x; reflexivity. }
+        unfold bind, rd_flag. cbn [r_flag ER BR]. rewrite Hbf. unfold read_flag.
+        destruct (read s 1) as [v s1]. cbn [fst snd] in *. subst v.
+        destruct x; cbn [b2n].
+        * change (1 =? 1) with true. exact I.
+        * change (0 =? 1) with false. cbv iota. apply IH; [exact G1|reflexivity|exact D1].
+    - cbn. split; [reflexivity|]. apply Good_Sim; assumption.
+  Qed.
+
+  Lemma MRel_align {A} (k1 : unit -> rstate -> res (A * rstate)) k2 :
+    (forall u, MRel raw false false (k1 u) (k2 u)) ->
+    MRel raw false false
+      (bind (rd_flag ER) (fun ab => if negb ab then fail else bind (halign_loop ER er_bib 9) k1))
+      (bind (rd_flag BR) (fun ab => if negb ab then fail else bind (halign_loop BR br_bib 9) k2)).
+  Proof.
+    intros Hk s b H. unfold bind at 1 3. unfold rd_flag. cbn [r_flag ER BR].
+    pose proof (flag_sim raw false s b H) as [E S1].
+    pose proof (br_flag_true b) as Ht.
+    destruct (read_flag s) as [v s1], (br_flag b) as [v' b1]. cbn [fst snd] in *. subst v'.
+    destruct v; cbn [negb]; [|exact I].
+    pose proof (Sim_good raw false s1 b1 S1 (Ht eq_refl)) as G1.
+    pose proof (align_good 9 s1 b1 G1 (Sim_raw raw _ _ _ S1) (Sim_data raw _ _ _ S1)) as HA.
+    unfold bind. unfold ORel in HA.
+    destruct (halign_loop ER er_bib 9 s1) as [[u s2]| | |], (halign_loop BR br_bib 9 b1) as [[u' b2]| | |];
+      try contradiction; try exact I.
+    destruct HA as [-> S2]. apply Hk. exact S2.
+  Qed.
+
+  (* `if r.AccError() != nil { return } ; Size = NrBytesRead()`: the counter is read in an error-free state *)
+  Lemma MRel_err_nbytes {A} (k1 : N -> rstate -> res (A * rstate)) k2 :
+    (forall a, MRel raw false false (k1 a) (k2 a)) ->
+    MRel raw false false
+      (bind (get_err ER) (fun e => if e then fail else bind (get_nbytes ER) k1))
+      (bind (get_err BR) (fun e => if e then fail else bind (get_nbytes BR) k2)).
+  Proof.
+    intros Hk s b H. unfold bind, get_err, get_nbytes. cbn [r_err r_nbytes ER BR].
+    rewrite (Sim_err raw false s b H). destruct (berr b) eqn:Eb; [exact I|].
+    rewrite (nbytes_good raw s b (Sim_raw raw _ _ _ H) (Sim_good raw false s b H Eb)). apply Hk. exact H.
+  Qed.
+
+  Ltac tie_sub ::= first [ apply MRel_rep_until_err_n
+                         | (apply rel_hslice_main; eapply hsps_narrow_w; eassumption)
+                         | (eapply MRel_align; intros ?) | (eapply MRel_err_nbytes; intros ?) ].
+  Ltac tie_rd_side ::= first [ tie_width | (unfold u8; lia) ].
+
+  Lemma rel_hparse_slice spsmap ppsmap :
+    (forall id s, spsmap id = Some s -> hsps_narrow s = true) ->
+    MRel raw false false (hparse_slice ER er_bib spsmap ppsmap) (hparse_slice BR br_bib spsmap ppsmap).
+  Proof. intros Hs. unfold hparse_slice. tie. Qed.
 End Hevc.
 
 Lemma tie_hevc_pps raw spsmap :
@@ -73,4 +188,13 @@ Lemma tie_hevc_pps raw spsmap :
 Proof.
   intros Hb Hz. unfold hparse_pps_er, hparse_pps_br.
   apply (MRel_run raw (bytes_ok_lt256 raw Hb) true true); [apply rel_hparse_pps|exact Hz].
+Qed.
+
+Lemma tie_hevc_slice raw spsmap ppsmap :
+  bytes_ok raw = true -> zrun_ok raw = true ->
+  (forall id s, spsmap id = Some s -> hsps_narrow s = true) ->
+  hparse_slice_er spsmap ppsmap (escape raw) = hparse_slice_br spsmap ppsmap (escape raw).
+Proof.
+  intros Hb Hz Hs. unfold hparse_slice_er, hparse_slice_br.
+  apply (MRel_run raw (bytes_ok_lt256 raw Hb) false false); [apply rel_hparse_slice; exact Hs|exact Hz].
 Qed.
